@@ -5,6 +5,7 @@ attribute values and text arrive at the tokenizer decoded to exactly the strings
 Tree-builder stability (tokens ↦ tree) is x/net/html's and is checked per generated document by the round-trip oracle.
 -/
 import Vuego.Props.C01
+import Vuego.Generated.Parse
 namespace Vuego.Props.C02
 open Go Vuego Html
 
@@ -60,6 +61,10 @@ theorem void_elements_partial (tag : Str) (attrs : List Attr) (ht : WFTag tag) (
     exact ⟨ht, hnt, hraw, hca, ha⟩
   rw [Vuego.Props.C01.render_tokens _ h]
   simp [toksList, toksNode, kidShape, spaces]
+
+/-- the source tells a full document from a fragment by the presence of an `</html>` end tag anywhere in the input (the property's fourth
+    anchor); the round-trip oracle parses every source that contains one as a document, independently of the library's choice -/
+theorem source_document_rule : Generated.documentRule = "bytes.Contains(templateBytes, []byte(\"</html>\"))" := by decide
 
 /-! non-vacuity -/
 example : unescape (escape "a < b & \"c\" 'd' > &amp;".toList) = "a < b & \"c\" 'd' > &amp;".toList := unescape_escape _
